@@ -23,6 +23,7 @@ import PyomaVerif.Ops.C09Run
 import PyomaVerif.Ops.Poles
 import PyomaVerif.Ops.C17Table
 import PyomaVerif.Ops.C08
+import PyomaVerif.Ops.MsGather
 /-! Line-protocol driver: one JSON object per line in, one JSON value per line out. -/
 open Lean PV PV.Codec
 
@@ -33,6 +34,7 @@ def allOps : List (String × (Json → Except String Json)) :=
   ++ PV.Ops.Poles.ops
   ++ PV.Ops.C17Table.ops
   ++ PV.Ops.C08.ops
+  ++ PV.Ops.MsGather.ops
 
 def handle (line : String) : String :=
   match Json.parse line with
